@@ -317,17 +317,41 @@ def apply(I, st, inst, node, nidx, callee, args, term, dty, line):
             if v[0] == "nonnull_opt":
                 E("NULLCHECK", ptr=v[1], how=name)
                 return v[1]
+            if v[0] == "optj":
+                # unwrap / expect of a guarded Option: past this point it was Some, so what held on the Some side holds
+                side = I.optj.get((v[1], v[2]))
+                if side:
+                    st.facts = st.facts | frozenset(side[0])
+                    for f in side[0]:
+                        # a checked operation whose None is turned into this panic: the checked-and-unwrapped protocol
+                        if f[0] == "eq0":
+                            for a in f[1].atoms():
+                                if isinstance(a, tuple) and a[0] == "discr" and isinstance(a[1], tuple) and a[1][:1] == ("checked",) and f[1] == Poly.atom(a) - Poly.const(1):
+                                    E("CHECKED_UNWRAP", op=a[1][1], a=a[1][2], b=a[1][3])
+                E("UNWRAP", of=("optj", v[1], v[2]))
+                return v[3]
             if v[0] == "layout_res":
                 E("LAYOUT_NEW", size=v[1], align=v[2], checked=True)
                 return ("layout", v[1], v[2], "checked")
         E("UNWRAP", of=h(v))
         return I.wrap(("unwrap", h(v)), dty)
+    if path == "core::bool::<impl bool>::then_some":
+        # cond.then_some(v): Some(v) exactly when cond holds (a guarded Option, like the join of Some(v) with None)
+        from .interp import bool_facts
+        key = ("then_some",)
+        I.optj[(node.gid, key)] = (frozenset(bool_facts(args[0], True)), frozenset(bool_facts(args[0], False)))
+        return ("optj", node.gid, key, h(args[1]))
     if path == "core::option::Option::<T>::unwrap_or":
         v = args[0]
         if isinstance(v, tuple) and v and v[0] == "some":
             return v[1]
         if isinstance(v, tuple) and v and v[0] == "none":
             return args[1]
+        if isinstance(v, tuple) and v and v[0] == "checked" and v[1] in ("Mul", "Add") and as_poly(args[1]) == Poly.const(2 ** 64 - 1):
+            # checked_mul(..).unwrap_or(usize::MAX) is saturating_mul
+            nm = "saturating_mul" if v[1] == "Mul" else "saturating_add"
+            x, y = v[2], v[3]
+            return Poly.atom((nm, x, y))
         if isinstance(v, tuple) and v and v[0] == "checked" and v[1] == "Div":
             # a / b when b != 0, the fallback otherwise
             from .interp import implies
